@@ -15,7 +15,7 @@ use vpmodel::spec::{mono, ChainSpec};
 pub const DEF: PropDef = PropDef {
     id: "C09",
     level: "exploration",
-    rule: "part 'complete': consistent chains on all 8 coins (real genesis block for 7; NoteBlockchain only with --start>=1) whose blocks hold 1..300 txs covering every merkle tree shape class (powers of two, 2^k+-1, odd at several levels), any --start/--end: with --verify the run must exit 0 and produce exactly the output of the run without --verify. part 'faults': one fault operator applied to block h: single-bit flip in (a) non-witness tx bytes, (b) the merkle field, (c) the prev field; (d) block replaced by a block of a foreign chain or by a copy of the coin's own genesis block; (e) another coin's genesis block at height 0; (f) synthetic block at height 0. If h is in the processed range the run must exit non-zero, name no other height than h in 'Error at height', and leave no final-named file; if h is outside the range the run must succeed with unchanged output. part 'every-bit-of-one-block': every single-bit flip of the merkle field, the prev field and all transaction bytes of the last block of a two-block chain, which ends its blk file (coinbase-only block in the quick tier, three transactions in the thorough tier). Non-trivial = fault at h>start (prev taken from the index), at h==start>0 (retained start-1 record), or a consistent block with >=3 txs; distinct by (tree-shape class, fault kind, position class, coin).",
+    rule: "part 'complete': consistent chains on all 8 coins (real genesis block for 7; NoteBlockchain only with --start>=1) whose blocks hold 1..300 txs covering every merkle tree shape class (powers of two, 2^k+-1, odd at several levels), any --start/--end: with --verify the run must exit 0 and produce exactly the output of the run without --verify. part 'faults': one fault operator applied to block h: single-bit flip in (a) non-witness tx bytes, (b) the merkle field, (c) the prev field; (d) block replaced by a block of a foreign chain or by a copy of the coin's own genesis block; (e) another coin's genesis block at height 0; (f) synthetic block at height 0. If h is in the processed range the run must exit non-zero, name no other height than h in 'Error at height', and leave no final-named file; if h is outside the range the run must succeed with unchanged output. part 'every-bit-of-one-block': every single-bit flip of the merkle field, the prev field and all transaction bytes of the last block of a two-block chain, which ends its blk file (coinbase-only block in the quick tier, three transactions in the thorough tier). Non-trivial = fault at h>start (prev taken from the index), at h==start>0 (retained start-1 record), or a consistent block with >=3 txs; distinct by (tree-shape class, fault kind, position class, coin). Consistent chains may hold verbatim duplicate transactions (a quarter of them right behind the original: equal sibling nodes in the merkle tree) and duplicate coinbases.",
     assumptions: &["header fields other than merkle root and prev hash are not claimed by the statement and are not faulted", "fault cases use legacy transactions and non-AuxPoW blocks so that every tx byte is covered by a txid"],
     run,
     replay,
@@ -71,6 +71,9 @@ fn chain_cfg(tier: Tier, faults: bool) -> gen::ChainCfg {
     cfg.tx.big_counts = !faults;
     cfg.tx.allow_segwit = !faults;
     cfg.real_genesis = Just(true).boxed();
+    // verbatim duplicates of earlier transactions / coinbases (equal txids, also side by side in one block: equal
+    // sibling nodes in the merkle tree) - the root of such a list is still 'the Bitcoin merkle root of the txids'
+    cfg.dup_coinbase = !faults;
     cfg
 }
 
@@ -82,6 +85,14 @@ pub fn strategy(tier: Tier, faults: bool) -> BS<Case> {
     };
     (gen::chain(&chain_cfg(tier, faults)), any::<u16>(), prop_oneof![2 => Just(None), 1 => any::<u16>().prop_map(Some)], fault, proptest::sample::select(vec![Callback::CsvDump, Callback::CsvDump, Callback::UnspentCsvDump, Callback::Balances, Callback::SimpleStats]))
         .prop_map(move |(mut chain, start, end, fault, cb)| {
+            if !faults && start & 3 == 0 {
+                // every duplicate repeats the transaction right before it
+                for t in chain.blocks.iter_mut().flat_map(|b| b.txs.iter_mut()) {
+                    if t.dup_of.is_some() {
+                        t.dup_of = Some(u16::MAX);
+                    }
+                }
+            }
             if faults {
                 // keep blocks free of AuxPoW sections: their bytes are not covered by any txid
                 if let Some(th) = chain.coin.auxpow_threshold() {
